@@ -26,7 +26,7 @@ RULE = ('seeded two-file worlds: data file from the stub encoder (metadata-less 
         'properties, lengths, dtypes and data; the index alone (path and TDSh stream) gives the same metadata and '
         'refuses data reads. distinct = (segment shapes | program shape, index producer, backend, cut class); '
         'non-trivial = a channel with >= 1 value was compared with and without index')
-EXPECTED_PROBES = ['names-changed-after-open', 'stub-index', 'writer-index', 'cut-data-complete-index', 'padding', 'segment-without-metadata',
+EXPECTED_PROBES = ['descriptor-limit', 'names-changed-after-open', 'stub-index', 'writer-index', 'cut-data-complete-index', 'padding', 'segment-without-metadata',
                    'index-only-path', 'index-only-stream', 'realpath']
 
 
@@ -60,6 +60,9 @@ def generate(rng, tier):
             # after TdmsFile.open returned, the directory entries are moved away ('rename') or other files are put under the
             # same names ('replace'): an open file is what was opened, whatever its name designates later
             'after_open': rng.choice([None] * 8 + ['rename', 'replace']),
+            # a process that keeps several files open works close to its descriptor limit: the index file must not cost a
+            # descriptor for longer than it is being read
+            'fd_limit': rng.random() < 0.08,
             'raw_ts': rng.random() < 0.4, 'win_seed': rng.getrandbits(32), 'debug_log': rng.random() < 0.05}
 
 
@@ -195,10 +198,19 @@ def execute(case):
                 res.probe('pathlib-path')
             for mode in ('read', 'open', 'read_metadata'):
                 win_rng = random.Random(case['win_seed'])
+                kept = []
                 try:
+                    if mode == 'open' and case.get('fd_limit') and not real:
+                        # two more handles on the same file stay open; room for exactly one transient descriptor more
+                        res.probe('descriptor-limit')
+                        st.fs.max_open = 4
+                        kept = [open_mode('open', path, raw_ts), open_mode('open', path, raw_ts)]
                     tf = open_mode(mode, path, raw_ts)
                 except Exception as exc:
                     snaps[(with_index, mode)] = ('exc', type(exc).__name__, str(exc)[:100])
+                    for k_ in kept:
+                        k_.close()
+                    st.fs.max_open = None
                     continue
                 moved = False
                 if mode == 'open' and case.get('after_open'):
@@ -209,6 +221,9 @@ def execute(case):
                     snaps[(with_index, mode)] = snapshot(tf, mode, win_rng)
                 finally:
                     tf.close()
+                    for k_ in kept:
+                        k_.close()
+                    st.fs.max_open = None
                     if moved:
                         restore_entries(st, real, with_index)
                 res.steps += 1
